@@ -174,20 +174,7 @@ def run(ctx):
             read.add(n.slice.value)
     if not required:
         raise AnalysisError("C15-R1: key list of is_compressed not found")
-    # presence, not truthiness: BN_RPX1/2 are legitimately 0 when an axis is
-    # a multiple of the factor
-    tests = [c for c in ast.walk(isc.node) if isinstance(c, ast.Compare) and
-             len(c.ops) == 1 and isinstance(c.ops[0], ast.In)]
-    truthy = [c for c in ast.walk(isc.node) if isinstance(c, ast.Call) and
-              isinstance(c.func, ast.Attribute) and c.func.attr == "get"]
-    subs = [c for c in ast.walk(isc.node) if isinstance(c, ast.Subscript)
-            and norm(c.value) == isc.params[0]]
-    ctx.check("C15-R1", isc, "keys tested for presence (`in`)",
-              len(tests) >= 1 and not truthy and not subs,
-              "is_compressed must test that the keys are PRESENT; testing "
-              "their truth value fails for the valid residual 0 (an axis "
-              "that is an exact multiple of the factor), so such files are "
-              "never expanded", node=isc.node)
+    presence_rule(ctx, prog, "C15-R1")
     ctx.check("C15-R1", comp, "written %s vs required %s" %
               (sorted(written), sorted(required)), written == required,
               "compress writes %s but is_compressed requires %s" %
@@ -473,3 +460,22 @@ def r5_axes(ctx, prog, comp):
                   "depend on the image's %s only" % (own, norm(e), sorted(d),
                                                      own), node=ret)
     ctx.floor("C15-R5", n, 2, "axes of the decimated array")
+
+
+def presence_rule(ctx, prog, rule):
+    """is_compressed decides by the PRESENCE of the keywords: BN_RPX1/2 are
+    legitimately 0 when an axis is a multiple of the factor (shared by
+    C15-R1 and C20-R8)"""
+    isc = prog.func("fits_tools.is_compressed")
+    tests = [c for c in ast.walk(isc.node) if isinstance(c, ast.Compare) and
+             len(c.ops) == 1 and isinstance(c.ops[0], ast.In)]
+    truthy = [c for c in ast.walk(isc.node) if isinstance(c, ast.Call) and
+              isinstance(c.func, ast.Attribute) and c.func.attr == "get"]
+    subs = [c for c in ast.walk(isc.node) if isinstance(c, ast.Subscript)
+            and norm(c.value) == isc.params[0]]
+    ctx.check(rule, isc, "keys tested for presence (`in`)",
+              len(tests) >= 1 and not truthy and not subs,
+              "is_compressed must test that the keys are PRESENT; testing "
+              "their truth value fails for the valid residual 0 (an axis "
+              "that is an exact multiple of the factor), so such files are "
+              "never expanded", node=isc.node)
